@@ -481,7 +481,18 @@ def rule_c17_copy_neg_init(prog: Program, col: Collector) -> None:
     if sets:
         p = ref.positional_params()
         a = sets[0].args
-        okp = len(a) >= 2 and has_subterm(a[0], ("param", p[1])) and a[1] == ("param", p[2])
+        okp = len(a) >= 2 and has_subterm(a[0], ("param", p[1])) and has_subterm(a[1], ("param", p[2])) and not has_subterm(a[0], ("param", p[2])) \
+            and not has_subterm(a[1], ("param", p[1]))
+        # both arguments may be views of, or generators over, this very game (g.set_known_values(g.get_values()), get_known_coalitions(g)):
+        # they must be turned into independent arrays / lists BEFORE the table is cleared
+        if inits:
+            mat = [e for e in ft.calls() if e.seq < inits[0].seq and (is_call_to(e.term, "numpy.fromiter", "numpy.array", "list", "tuple", "numpy.asarray", "numpy.copy"))]
+            vals_ok = any(has_subterm(e.term, ("param", p[1])) and not is_call_to(e.term, "numpy.asarray") for e in mat)
+            coal_ok = any(has_subterm(e.term, ("param", p[2])) and not is_call_to(e.term, "numpy.asarray") for e in mat)
+            col.check(vals_ok and coal_ok, ref.where(inits[0].node), ref.short,
+                      "the given values and coalitions are copied out (np.fromiter / list) before _init_values() clears the table", construct="reset-args-materialised",
+                      necessity="the getters hand out live views and lazy generators over this table: g.set_known_values(g.get_values()) would read zeros after the reset and leave "
+                                "every coalition known with value 0; a generator over the game's known coalitions would find none")
         col.check(okp, ref.where(sets[0].node), ref.short, "set_values receives the given values and coalitions",
                   construct="reset-args", necessity="set_known_values must forward exactly the given values and coalitions to set_values: otherwise values are attached to other coalitions")
     ref = gm.method("_init_values")
